@@ -1,4 +1,76 @@
-From Coq Require Import ZArith.
-From Tulz Require Import RouterModel.
-Theorem placeholder_C13 : 1 = 1. Proof. reflexivity. Qed.
-Print Assumptions placeholder_C13.
+(* Properties_C13.v — SubjectRouter::shrink is invisible to delivery; exists/depth stay consistent.
+   Only statements, each closed by [exact <lemma of RouterProofsA / RouterProofsB>], and Print Assumptions. *)
+From Coq Require Import List ZArith Bool Lia.
+From Tulz Require Import Common RouterModel RouterSpec RouterProofsA RouterProofsB.
+Import ListNotations.
+Local Open Scope Z_scope.
+
+(* shrink never changes the keys that have subscriptions, nor their subscriptions: any tree, any pattern *)
+Theorem C13_shrink_flat : forall n lv, flat (shrink_node n lv) = flat n.
+Proof. exact shrink_flat. Qed.
+Print Assumptions C13_shrink_flat.
+
+(* hence it never changes which observers any later notify reaches: for every reachable router,
+   every pattern and every continuation (subscribe, unsubscribe, invalidate, notify, further
+   shrinks, re-subscribe under removed keys), the calls of every later operation are the same
+   with and without the shrink *)
+Theorem C13_shrink_invisible : forall byval s ops0 r pat ops,
+  rrun true byval s router0 ops0 = Some r ->
+  rtrace true byval s (mkRt (shrink_node (root r) (full pat)) (rhandles r) (rnext r)) ops
+  = rtrace true byval s r ops.
+Proof. exact shrink_invisible. Qed.
+Print Assumptions C13_shrink_invisible.
+
+(* it never removes a key that still has a subscription at or below it *)
+Theorem C13_keeps_live : forall n lv e p,
+  In e (flat n) -> firstn (length p) (fst e) = p -> In p (paths (shrink_node n lv)).
+Proof. exact shrink_keeps_live. Qed.
+Print Assumptions C13_keeps_live.
+
+(* it only removes dead keys lying along the pattern: a removed path has no subscription at or
+   below it, and its parent matches a prefix of the pattern (the source erases every empty
+   child of every node it visits) *)
+Theorem C13_removes_only_dead_along_pattern : forall n l pat p,
+  In p (paths n) -> ~ In p (paths (shrink_node n (l :: pat))) ->
+  (forall e, In e (flat n) -> firstn (length p) (fst e) <> p) /\
+  exists p' k, p = p' ++ [k] /\ (length p' <= length pat)%nat /\
+               key_matches (firstn (length p') pat) p' = true /\ matches l (nname n) = true.
+Proof. exact shrink_removes_only_dead. Qed.
+Print Assumptions C13_removes_only_dead_along_pattern.
+
+(* a wildcard pattern at least as deep as the tree removes every dead branch: every remaining
+   node other than the root has a subscription at or below it *)
+Theorem C13_full_wildcard_removes_all_dead : forall n l pat p,
+  matches l (nname n) = true -> all_wildcard pat -> depth_node n - 1 <= Zlen pat ->
+  In p (paths (shrink_node n (l :: pat))) -> p <> [] ->
+  exists e, In e (flat (shrink_node n (l :: pat))) /\ firstn (length p) (fst e) = p.
+Proof. exact full_wildcard_removes_all_dead. Qed.
+Print Assumptions C13_full_wildcard_removes_all_dead.
+
+(* exists(pattern) is true exactly when some stored node path (a stored key or a prefix of one)
+   has the pattern's length and matches it level by level *)
+Theorem C13_exists_spec : forall n l pat,
+  exists_node n (l :: pat) = matches l (nname n) && existsb (key_matches pat) (paths n).
+Proof. exact exists_spec. Qed.
+Print Assumptions C13_exists_spec.
+
+(* stored paths are prefix-closed *)
+Theorem C13_paths_prefix_closed : forall n p q, In (p ++ q) (paths n) -> In p (paths n).
+Proof. exact paths_prefix_closed. Qed.
+Print Assumptions C13_paths_prefix_closed.
+
+(* depth() is one more than the longest stored path *)
+Theorem C13_depth_spec : forall n, depth_node n = 1 + fold_right Z.max 0 (map Zlen (paths n)).
+Proof. exact depth_spec. Qed.
+Print Assumptions C13_depth_spec.
+
+Example C13_nonvacuous :
+  let r := rrun true harness_byval (SVal 0) router0
+             [RSubscribe [8; 6]; RSubscribe [8; 7; 9]; RSubscribe [4]; RUnsub 1; RUnsub 2] in
+  (* the first shrink also erases the dead sibling [4] of the visited root and the emptied [8; 7] *)
+  option_map (fun r => (paths (root r), paths (shrink_node (root r) (full [LStr 8; LRx [6; 7]])),
+                        paths (shrink_node (root r) (full [LRx [4; 8]; LRx [6; 7]; LRx [9]])))) r
+  = Some ([[]; [4]; [8]; [8; 6]; [8; 7]; [8; 7; 9]],
+          [[]; [8]; [8; 6]],
+          [[]; [8]; [8; 6]]).
+Proof. vm_compute. reflexivity. Qed.
